@@ -1,4 +1,5 @@
 import GohbaseVerif.Lemmas.ScannerLease
+import GohbaseVerif.Gen.Selects
 /-!
 # C14 — scanners terminate cleanly and release server-side scanners
 
@@ -159,5 +160,15 @@ example :
     let R := [Reply.resp ⟨[], []⟩ ⟨[⟨[⟨[1], 0⟩], false⟩], some 7, true, true⟩, Reply.err "rpc"]
     let s := (runOps sc [.next, .next] false R (St.init sc)).2.1
     s.closed = true ∧ closesSent s.log = [7] ∧ exhausted s.log = [] ∧ s.serverOpen = [] := by decide
+
+/-- Regenerated from scanner.go: the lease renewer (`go s.renewLoop`) is started only while the scan
+is open *and* a region scanner is open on a server (fix 1332c04).  A renewer running between two
+regions sends its renew request without a scanner id; a regionserver opens a region scanner — with
+a lease of its own — for such a request, and nobody ever closes it (observed as `lease-leak-*` with
+renewing scans).  The lease accounting of `lease_invariant` / `no_lease_left` is about the
+scanners the scan itself opened; this fact is what keeps the renewer from opening others. -/
+theorem renewer_only_while_region_scanner_open_in_source :
+    (GV.Gen.Selects.goStmts.filter (fun g => g.call == "s.renewLoop")).map (fun g => (g.fn, g.guard))
+      = [("scanner.peek", "!s.closed && !s.isRegionScannerClosed() && s.rpc.RenewInterval() > 0")] := by decide
 
 end GV.Scanner
